@@ -254,7 +254,13 @@ func init() {
 		return VBool{e.fresh(fmt.Sprintf("%s_%d", strArg(a[0]), e.nondet), SBool)}
 	}
 	// ilen UF: length of the well-formed CBOR item starting at absolute offset off of data's backing array
+	// enc(v): an opaque encoding that is a function of the value -- the same value (same
+	// flattened leaves) yields the same symbolic bytes on a path, different values fresh ones
 	verifHooks["verifOpaqueBytes"] = func(e *Exec, a []Value) Value {
+		key := strArg(a[0]) + "|" + e.flatKey(a[1], 0)
+		if v, ok := e.encMemo[key]; ok {
+			return v
+		}
 		e.nondet++
 		n := 4
 		arr := newCell(typeByteArray(n))
@@ -265,7 +271,9 @@ func init() {
 				arr.Elems[i].V = VInt{e.fresh(fmt.Sprintf("%s%d_%d", strArg(a[0]), e.nondet, i), 8)}
 			}
 		}
-		return VSlice{arr, 0, n, n}
+		v := VSlice{arr, 0, n, n}
+		e.encMemo[key] = v
+		return v
 	}
 	// a decode into a destination the contract does not model: "the decoder produced some
 	// value" -- the destination is left as the harness prepared it
@@ -495,6 +503,39 @@ func init() {
 		}
 		return newError("fmt.Errorf:"+strArg(a[0]), causes...)
 	}
+	intrinsics["bytes.Equal"] = func(e *Exec, a []Value) Value {
+		x, y := e.bytesOf(a[0]), e.bytesOf(a[1])
+		if len(x) != len(y) {
+			return VBool{BoolC(false)}
+		}
+		r := BoolC(true)
+		for i := range x {
+			r = And(r, Eq(x[i], y[i]))
+		}
+		return VBool{r}
+	}
+	intrinsics["encoding/hex.EncodeToString"] = func(e *Exec, a []Value) Value {
+		bs := e.bytesOf(a[0])
+		out := make([]byte, 0, 2*len(bs))
+		for _, b := range bs {
+			if !b.Const {
+				e.fail("hex.EncodeToString of symbolic bytes")
+			}
+			out = append(out, "0123456789abcdef"[b.U.Uint64()>>4], "0123456789abcdef"[b.U.Uint64()&15])
+		}
+		return VStr{string(out)}
+	}
+	intrinsics["(*sync/atomic.Value).Load"] = func(e *Exec, a []Value) Value {
+		c := a[0].(VPtr).C.Fields[0]
+		if v, ok := c.V.(VIface); ok {
+			return v
+		}
+		return VIface{}
+	}
+	intrinsics["(*sync/atomic.Value).Store"] = func(e *Exec, a []Value) Value {
+		a[0].(VPtr).C.Fields[0].V = a[1]
+		return nil
+	}
 	intrinsics["strings.Contains"] = func(e *Exec, a []Value) Value {
 		return VBool{BoolC(strings.Contains(strArg(a[0]), strArg(a[1])))}
 	}
@@ -509,4 +550,65 @@ func byteC(v uint64) Term {
 		return IntC(new(big.Int).SetUint64(v))
 	}
 	return BVu(8, v)
+}
+
+// flatKey renders a value structurally (terms of scalars, contents of slices, pointees) for
+// memoising functions of values.
+func (e *Exec) flatKey(v Value, depth int) string {
+	if depth > 8 {
+		return "..."
+	}
+	switch x := v.(type) {
+	case VInt:
+		return x.T.S
+	case VBool:
+		return x.T.S
+	case VBig:
+		return x.T.S
+	case VStr:
+		return fmt.Sprintf("%q", x.S)
+	case VStruct:
+		s := "{"
+		for _, f := range x.F {
+			s += e.flatKey(f, depth+1) + ","
+		}
+		return s + "}"
+	case VArray:
+		s := "["
+		for _, f := range x.E {
+			s += e.flatKey(f, depth+1) + ","
+		}
+		return s + "]"
+	case VSlice:
+		if x.Arr == nil {
+			return "nil[]"
+		}
+		s := "s["
+		for i := 0; i < x.Len; i++ {
+			s += e.flatKey(load(x.Arr.Elems[x.Off+i]), depth+1) + ","
+		}
+		return s + "]"
+	case VPtr:
+		if x.C == nil {
+			return "nilp"
+		}
+		return "&" + e.flatKey(load(x.C), depth+1)
+	case VIface:
+		if x.Typ == nil {
+			return "nili"
+		}
+		return "i(" + x.Typ.String() + ":" + e.flatKey(x.Val, depth+1) + ")"
+	case VMap:
+		if x.M == nil {
+			return "nilm"
+		}
+		s := "m{"
+		for i := range x.M.Keys {
+			s += e.flatKey(x.M.Keys[i], depth+1) + ":" + e.flatKey(x.M.Vals[i].V, depth+1) + ","
+		}
+		return s + "}"
+	case nil:
+		return "nil"
+	}
+	return fmt.Sprintf("%T", v)
 }
